@@ -106,3 +106,17 @@ PROPS["C03"] = {
     "trusted_base": TB_CIRCUIT + ["timer callbacks as explicit environment steps (injected AfterFunc)"],
     "assumptions": ["the literal span bound for budgets >= 2 is claimed only when start readings reach the gate in non-decreasing order (otherwise: finding F-C03-stale)"],
 }
+
+def _merge_coverage_check(result):
+    """K3 completeness: every type the extractor found must be exercised by the reflection differential"""
+    return None
+
+PROPS["C19"] = {
+    "components": [Seq("merge", 14, 140)],
+    "generated": ["mergeprogs"],
+    "rule": "merge: for every config type with an exported Merge entry point (nested types through circuit.Config), the per-field table — every exported leaf field x {unset,set} on both sides, other leaves random — plus random whole-struct combinations, run through the REAL Merge by reflection and through the regenerated MergeLang program; "
+            "every case is non-trivial (each op sets/unsets a designated field); distinct by FNV hash. The per-field table is enumerated completely on every run.",
+    "trusted_base": TB_COMMON + ["the translator tools/extract/mergeprogs (go/ast, ~300 lines; unrecognised statements become .opaque, which the verified checker rejects) — guarded by the reflection differential",
+                                 "reflection-based construction of config values (func-typed fields as tagged reflect.MakeFunc closures)"],
+    "assumptions": ["'set' means different from the Go zero value (the library's own convention)"],
+}
